@@ -13,14 +13,15 @@ PROPERTY = 'C15'
 LEVEL = 'exploration'
 RULE = (
     "Case = one-way latency (0.5 ms..2 s), per-user list of server behaviours per AddUser attempt (exists / missing / "
-    "silent, cyclic), <=8 track_user/untrack_user calls for users u0,u1 with flags from {REQUESTED, TRANSFER, FRIEND} "
+    "silent, cyclic), <=8 track_user/untrack_user calls for users u0,u1,u2 (in a quarter of the multi-user cases opened by a burst: every user gets a reason 0..5 iterations apart, so several attempts are in flight at once) with flags from {REQUESTED, TRANSFER, FRIEND} "
     "(single, sometimes combined), each followed by a gap: 0..16 loop iterations, a virtual delay 1 ms..700 s (biased to "
     "the neighbourhood of 10 s, 20 s, 600 s), 'retry' (wait until the exact instant at which the pending retry of that "
     "user fires, then k iterations) or 'reply' (the exact instant at which the AddUser reply reaches the client, then k "
     "iterations); at most one server disconnect (server EOF, server reset, or the next client write fails) at a "
-    "generated position; a tail of 12..1300 s. System = real UserManager + real Network over the in-memory TCP layer "
+    "generated position; a tail of 12..1300 s; in half of the cases the server runs in glue mode: it collects the AddUser answers of a 1 ms / 10 ms / 0.3 s window and writes them with one send (one TCP segment, handled back-to-back by the client), in arrival or reverse order, optionally with a GetUserStatus notification before, between or after them. "
+    "System = real UserManager + real Network over the in-memory TCP layer "
     "(1 in 10 cases: a full logged-in SoulSeekClient, there with delays and tail capped at 45 s). Besides Hypothesis, "
-    "run_shard enumerates the iteration offset 0..12 between the untrack that empties the set and the next track (x "
+    "run_shard enumerates glued answers for 2..3 simultaneously tracked users (order x extra message x window x iteration offset x answer), the iteration offset 0..12 between the untrack that empties the set and the next track (x "
     "behaviour x latency x exit path), offsets around the retry instant, and disconnect kinds x offsets. Oracle = "
     "flag-set reference model folded over the calls in issue order. The worker handles calls one by one, so the "
     "property is read literally: per user the AddUser/RemoveUser frames seen by the server, with runs of consecutive "
@@ -38,10 +39,11 @@ RULE = (
     "An observation that is explained by deleting one or two calls is reported as lost call(s) (kind names the window) "
     "and suppresses the dependent observations of that user. Non-trivial = a track call in the same instant (zero "
     "virtual time, 0..16 iterations) after the call that emptied the set, or a set emptied while a retry was pending, "
-    "or a call issued while an attempt was in flight, or a disconnect with a non-empty set; distinct = distinct case. "
+    "or a call issued while an attempt was in flight, or a disconnect with a non-empty set, or the answers of several "
+    "users in one segment; distinct = distinct case. "
     "Second tier ('tier':'xfer', full logged-in SoulSeekClient, confirming server): <=12 ops from {add a download "
     "(left VIRGIN, paused, or queued towards an unreachable peer) in one of 3 slots for u0/u1, abort, pause, queue, "
-    "remove, track_user/untrack_user with REQUESTED or FRIEND, server EOF/reset, re-login (Network.connect_server + "
+    "remove, track_user/untrack_user with REQUESTED or FRIEND, server EOF/reset/failing write, re-login (Network.connect_server + "
     "login)} with gaps 0..3 s; the TRANSFER reason is owned by the real TransferManager. At every quiescent point "
     "while logged in (>= 1.5 s after the last op, >= 22 s after a re-login) and at the end (after a re-login if "
     "needed), per user: reasons = user-API reasons since the last close | TRANSFER iff client.transfers holds an "
@@ -63,14 +65,15 @@ ASSUMPTIONS = [
     "the full client avoids by pinging) does not close the connection during long delays",
     "task survival and the worker-exit-window hint in the violation kind read task names / private attributes for "
     "observation only",
-    "xfer tier: no write failures (listed finding), no calls within 0.3 s after the server closes; downloads never "
+    "xfer tier: a write failure is provoked at once by the AddUser of a dummy user; no calls within 0.3 s after the break; downloads never "
     "finish on their own (peer without address), so 'unfinished' only changes through the generated ops; on a later "
     "session one leading RemoveUser is tolerated (a reason added while disconnected, whose AddUser was silently not "
     "sent, and removed again); no checkpoints while disconnected",
 ]
 BUDGET_S = {'quick': 120, 'thorough': 1500}
 
-USERS = ['u0', 'u1']
+USERS = ['u0', 'u1', 'u2']
+GLUE_WINDOWS = [0.001, 0.01, 0.3]   # the server collects AddUser answers this long and writes them as one segment
 BEH = ['exists', 'missing', 'silent']
 ANSWER_TIMEOUT = 10.0       # wait_for_server_message(AddUser.Response, timeout=10)
 RETRY_NET = 10.0            # pinned: retry after send error / no answer
@@ -103,10 +106,20 @@ def _gap_strategy():
 
 @st.composite
 def case_strategy(draw):
-    n_users = draw(st.integers(1, 2))
+    n_users = draw(st.sampled_from([1, 2, 2, 3]))
     n_calls = draw(st.integers(1, MAX_CALLS))
-    sets = [0, 0]
+    sets = [0, 0, 0]
     ops = []
+    glue = draw(st.sampled_from([0, 0, 0, 1, 2, 3]))
+    if n_users > 1 and draw(st.integers(0, 3 if glue else 9)) == 0:
+        # burst: every user gets a reason at (nearly) the same time, so several attempts are in flight at once
+        order = draw(st.permutations(list(range(n_users))))
+        for u in order:
+            f = draw(st.sampled_from([1, 2, 4]))
+            sets[u] |= f
+            ops.append({'op': 't', 'u': u, 'f': f, 'gap': ['it', draw(st.sampled_from([0, 0, 1, 2, 5]))]})
+        ops[-1]['gap'] = draw(_gap_strategy())
+        n_calls = max(0, n_calls - len(ops))
     for _ in range(n_calls):
         u = draw(st.integers(0, n_users - 1))
         held = [b for b in (1, 2, 4) if sets[u] & b]
@@ -125,14 +138,18 @@ def case_strategy(draw):
         pos = draw(st.integers(0, len(ops)))
         ops.insert(pos, {'op': 'x', 'k': draw(st.integers(0, 2)), 'u': draw(st.integers(0, n_users - 1)),
                          'gap': draw(_gap_strategy())})
-    beh = [draw(st.lists(st.sampled_from([0, 0, 1, 2, 2]), min_size=1, max_size=4)) for _ in range(2)]
-    return {
+    beh = [draw(st.lists(st.sampled_from([0, 0, 0, 1, 2, 2] if glue else [0, 0, 1, 2, 2]), min_size=1, max_size=4))
+           for _ in range(3)]
+    case = {
         'lat': draw(st.sampled_from(LATS)),
         'full': draw(st.integers(0, 9)) == 0,
         'beh': beh,
         'ops': ops,
         'tail': draw(st.sampled_from(TAILS)),
     }
+    if glue:
+        case['glue'] = {'w': glue - 1, 'rev': draw(st.booleans()), 'extra': draw(st.integers(0, 3))}
+    return case
 
 
 # ---------------------------------------------------------------------------
@@ -200,12 +217,18 @@ def _sanitise(case):
         for o in ops:
             if o['gap'][0] == 'dt':
                 o['gap'] = ['dt', min(o['gap'][1], 45.0)]
+    glue = None
+    rawg = case.get('glue')
+    if isinstance(rawg, dict):
+        glue = {'w': GLUE_WINDOWS[_num(rawg.get('w', 0), 0, 10 ** 6, 0, int) % len(GLUE_WINDOWS)],
+                'rev': bool(rawg.get('rev', False)), 'extra': _num(rawg.get('extra', 0), 0, 10 ** 6, 0, int) % 4}
     return {
         'lat': _num(case.get('lat', 0.02), 0.0005, 3.0, 0.02),
         'full': full,
         'beh': beh,
         'ops': ops,
         'tail': tail,
+        'glue': glue,
     }
 
 
@@ -259,14 +282,16 @@ def _execute(norm):
     from aioslsk.events import ConnectionStateChangedEvent, EventBus, UserTrackingStateChangedEvent
     from aioslsk.network.connection import ConnectionState, ServerConnection
     from aioslsk.network.network import Network
-    from aioslsk.protocol.messages import AddUser, Ping, RemoveUser
+    from aioslsk.protocol.messages import AddUser, GetUserStatus, Ping, RemoveUser
+    from aioslsk.protocol.primitives import UserStats
     from aioslsk.user.manager import UserManager
     from aioslsk.user.model import TrackingFlag, TrackingState
 
     lat = norm['lat']
     ops = norm['ops']
+    glue = norm.get('glue')
     obs = {'log': [], 'attempts': {u: [] for u in USERS}, 'frames': {u: [] for u in USERS}, 'call_errors': [],
-           'final': {}, 'survivors': [], 'disc': None}
+           'final': {}, 'survivors': [], 'disc': None, 'segments': []}
     log = obs['log']
 
     async def main(world):
@@ -282,12 +307,57 @@ def _execute(norm):
                 return None
             seq = norm['beh'][USERS.index(username)]
             beh = BEH[seq[n % len(seq)]] if seq else 'exists'
-            obs['attempts'][username].append((loop.time(), beh))
+            # [time the server got the request, behaviour, delay until the server writes the answer]
+            obs['attempts'][username].append([loop.time(), beh, 0.0])
             last_beh[username] = beh
             # same float expression as simnet.Link._enqueue -> the exact instant the reply reaches the client
-            arrival[username] = None if beh == 'silent' else loop.time() + max(0.0005, lat)
+            arrival[username] = None if (beh == 'silent' or glue) else loop.time() + max(0.0005, lat)
             return beh
         server.add_user_behaviour = behaviour
+
+        # glue mode: the answers to all AddUser requests of one collection window are written with ONE send (one TCP
+        # segment, handled by the client's reader back-to-back), in arrival or reverse order, optionally together
+        # with a GetUserStatus notification (as the real server does for a burst of AddUser requests after logon)
+        batch = []
+        batch_timer = [None]
+
+        def flush(idx):
+            batch_timer[0] = None
+            items = batch[:]
+            del batch[:]
+            if glue['rev']:
+                items.reverse()
+            blobs = []
+            now = loop.time()
+            for name, att, beh in items:
+                att[2] = now - att[0]
+                arrival[name] = now + max(0.0005, lat)
+                if beh == 'exists':
+                    blobs.append(AddUser.Response(name, exists=True, status=2, user_stats=UserStats(1000, 5, 10, 2),
+                                                  country_code='BE').serialize())
+                else:
+                    blobs.append(AddUser.Response(name, exists=False).serialize())
+            if blobs and glue['extra']:
+                status = GetUserStatus.Response(items[-1][0], 2, False).serialize()
+                pos = {1: 0, 2: max(1, len(blobs) // 2), 3: len(blobs)}[glue['extra']]
+                blobs.insert(pos, status)
+            if blobs and not server.sessions[idx].dead:
+                obs['segments'].append(len(items))
+                server.send(b''.join(blobs), idx)
+
+        def on_add_user(srv, idx, msg):
+            if msg.username not in USERS:
+                return False
+            n = srv.add_user_attempts.get(msg.username, 0)
+            srv.add_user_attempts[msg.username] = n + 1
+            beh = behaviour(msg.username, n)
+            if beh != 'silent':
+                batch.append((msg.username, obs['attempts'][msg.username][-1], beh))
+                if batch_timer[0] is None:
+                    batch_timer[0] = loop.call_later(glue['w'], flush, idx)
+            return True
+        if glue:
+            server.handlers[AddUser.Request] = on_add_user
 
         settings = simworld.mk_settings('me')
         client = None
@@ -365,6 +435,11 @@ def _execute(norm):
                         break
                     await asyncio.sleep(lat / 2 + 0.0001)
                 if len(obs['attempts'][name]) > attempts_before:
+                    if glue and obs['attempts'][name][-1][1] != 'silent':
+                        for _ in range(5):          # the answer leaves with the next flush of the collection window
+                            if arrival.get(name) is not None:
+                                break
+                            await asyncio.sleep(glue['w'] / 3 + 0.0002)
                     await wait_until(arrival.get(name))
                 await simloop.step(val)
 
@@ -415,7 +490,7 @@ def _execute(norm):
                 if all(len(_collapse([k for _, k in fr[u]])) >= want[u] for u in USERS):
                     break
                 await asyncio.sleep(0.5)
-            await asyncio.sleep(2 * lat + 0.05)
+            await asyncio.sleep(2 * lat + 0.05 + (glue['w'] if glue else 0.0))
             # an unanswered last attempt still blocks the worker (and the calls queued behind it) until its timeout
             fr = user_frames()
             wake = loop.time()
@@ -617,7 +692,8 @@ def _run_track_case(case) -> CaseResult:
             if c['op'] == 't' and s == 0 and prev is not None and prev['emptied'] and c['t'] == prev['t']:
                 labels.add('track-right-after-set-emptied')
                 nontrivial = True
-            inflight = [a for a in attempts if a[0] - lat <= c['t'] <= a[0] + (lat if a[1] != 'silent' else ANSWER_TIMEOUT - lat)]
+            inflight = [a for a in attempts
+                        if a[0] - lat <= c['t'] <= a[0] + (lat + a[2] if a[1] != 'silent' else ANSWER_TIMEOUT - lat)]
             if inflight:
                 labels.add('call-while-attempt-in-flight')
                 nontrivial = True
@@ -697,11 +773,12 @@ def _run_track_case(case) -> CaseResult:
 
         # -- retries ------------------------------------------------------------
         a_idx = -1
-        a_frames = []          # (time, behaviour) for every AddUser frame
+        a_frames = []          # (time, behaviour, answer delay at the server) for every AddUser frame
         for t, k in frames:
             if k == 'A':
                 a_idx += 1
-                a_frames.append((t, attempts[a_idx][1] if a_idx < len(attempts) else 'exists'))
+                a_frames.append((t, attempts[a_idx][1], attempts[a_idx][2]) if a_idx < len(attempts)
+                                else (t, 'exists', 0.0))
         ai = -1
         stale_active = False
         for j, (t, k) in enumerate(frames):
@@ -711,15 +788,15 @@ def _run_track_case(case) -> CaseResult:
             ai += 1
             beh = a_frames[ai][1]
             due_gap = None if beh == 'exists' else (
-                ANSWER_TIMEOUT + RETRY_NET if beh == 'silent' else RETRY_MISSING + 2 * lat)
+                ANSWER_TIMEOUT + RETRY_NET if beh == 'silent' else RETRY_MISSING + 2 * lat + a_frames[ai][2])
             nxt = frames[j + 1] if j + 1 < len(frames) else None
             if nxt is not None and nxt[1] == 'A':
                 gap = nxt[0] - t
                 stale = False
                 if j >= 2 and frames[j - 1][1] == 'R' and frames[j - 2][1] == 'A' and ai >= 1:
-                    t0, beh0 = a_frames[ai - 1]
+                    t0, beh0, d0 = a_frames[ai - 1]
                     if beh0 != 'exists':
-                        due0 = t0 + (ANSWER_TIMEOUT + RETRY_NET if beh0 == 'silent' else RETRY_MISSING + 2 * lat)
+                        due0 = t0 + (ANSWER_TIMEOUT + RETRY_NET if beh0 == 'silent' else RETRY_MISSING + 2 * lat + d0)
                         stale = abs(frames[j - 1][0] - due0) <= EPS
                 if stale_active and beh != 'exists' and gap < due_gap:
                     pass        # two retry chains run interleaved since the stale retry: same root cause
@@ -763,11 +840,11 @@ def _run_track_case(case) -> CaseResult:
                                 '%s: flags=%d state=tracked after the server connection closed at %.3f' % (
                                     user, flags, closed_time))
             elif not broken and a_frames:
-                t_last, beh = a_frames[-1]
+                t_last, beh, d_last = a_frames[-1]
                 if beh == 'silent':
                     in_flight = t_end < t_last - lat + ANSWER_TIMEOUT + 0.01
                 else:
-                    in_flight = t_end < t_last + lat + 0.01
+                    in_flight = t_end < t_last + lat + d_last + 0.01
                 if in_flight:
                     labels.add('final-state-check-skipped:answer-in-flight')
                 else:
@@ -790,6 +867,11 @@ def _run_track_case(case) -> CaseResult:
         res.violate('C15/loop-error:%s' % e.get('exc_type'), str(e)[:400])
         break
 
+    if norm.get('glue'):
+        labels.add('glue')
+        if any(n >= 2 for n in obs.get('segments', [])):
+            labels.add('answers-of-several-users-in-one-segment')
+            nontrivial = True
     res.nontrivial = nontrivial
     res.label(*sorted(labels))
     res.label('full-client' if norm['full'] else 'bare-network')
@@ -838,7 +920,7 @@ def xfer_strategy(draw):
                         'f': draw(st.sampled_from([1, 4])), 'gap': gap})
         elif logged_in and w < 18:
             logged_in = False
-            ops.append({'op': 'x', 'k': draw(st.integers(0, 1)), 'gap': gap})
+            ops.append({'op': 'x', 'k': draw(st.integers(0, 2)), 'gap': gap})
         elif not logged_in:
             logged_in = True
             ops.append({'op': 'login', 'gap': gap})
@@ -861,7 +943,7 @@ def _sanitise_xfer(case):
         elif op['op'] in 'tu':
             op['f'] = 4 if _num(o.get('f', 1), 0, 10 ** 6, 1, int) & 4 else 1      # REQUESTED or FRIEND, never TRANSFER
         elif op['op'] == 'x':
-            op['k'] = _num(o.get('k', 0), 0, 10 ** 6, 0, int) % 2                  # eof | reset (no write failure)
+            op['k'] = _num(o.get('k', 0), 0, 10 ** 6, 0, int) % len(DISC_KINDS)    # eof | reset | failing write
         ops.append(op)
     return {'lat': _num(case.get('lat', 0.02), 0.0005, 0.05, 0.02), 'ops': ops}
 
@@ -890,7 +972,7 @@ def _run_xfer_case(case) -> CaseResult:
         um, tm = client.users, client.transfers
         await asyncio.sleep(1.0)
 
-        api = [0, 0]                 # user API reasons since the tracking state was last dropped
+        api = [0] * len(USERS)       # user API reasons since the tracking state was last dropped
         slots = {}                   # slot -> Transfer
         removed_users = set()        # users that had a transfer removed from the manager
         blamed = set()               # users with a reported violation: later observations are consequences
@@ -1001,8 +1083,16 @@ def _run_xfer_case(case) -> CaseResult:
             elif kind == 'x':
                 if logged_in:
                     logged_in = False
-                    api[:] = [0, 0]         # everything is dropped with the connection
-                    server.close_session(kind=DISC_KINDS[op['k']])
+                    api[:] = [0] * len(USERS)     # everything is dropped with the connection
+                    if DISC_KINDS[op['k']] == 'write_fail':
+                        # the next write fails; provoke it with the AddUser of a tracking worker (the sender task
+                        # then closes the connection, which cancels the worker that waits for that sender)
+                        link = [l for l in world.net.links if l.name.endswith(
+                            '%s:%d' % (simworld.SERVER_HOST, simworld.SERVER_PORT))][-1]
+                        link.sides[0].fail_writes = ConnectionResetError('sim: write failed')
+                        await lib('track_user', um.track_user('wf', TrackingFlag.REQUESTED))
+                    else:
+                        server.close_session(kind=DISC_KINDS[op['k']])
                     labels.add('disconnect:' + DISC_KINDS[op['k']])
                     gap = max(gap, 0.3)     # the close is processed one latency later: no calls inside that window
             elif kind == 'login':
@@ -1050,7 +1140,7 @@ def _run_xfer_case(case) -> CaseResult:
 def _enumerated_xfer_cases():
     out = []
     for lat in (0.001, 0.02):
-        for k in (0, 1):
+        for k in (0, 1, 2):
             for mode in XFER_MODES:
                 # unfinished transfer survives a disconnect: TRANSFER must be announced again on the new session
                 out.append({'tier': 'xfer', 'lat': lat, 'ops': [
@@ -1139,8 +1229,34 @@ def _enumerated_cases():
     return out
 
 
+def _enumerated_glue_cases():
+    """2..3 users get a reason at (nearly) the same time; the server answers all of them in one TCP segment."""
+    out = []
+    for n_users in (2, 3):
+        for rev in (False, True):
+            for extra in (0, 1, 2, 3):
+                for w in (0, 2):
+                    for it in (0, 1, 4):
+                        for beh in ([[0], [0], [0]], [[0], [1, 0], [0]]):
+                            ops = [{'op': 't', 'u': u, 'f': 1 + u % 2, 'gap': ['it', it]} for u in range(n_users)]
+                            out.append({'lat': 0.02, 'full': False, 'beh': beh, 'tail': 31.0, 'ops': ops,
+                                        'glue': {'w': w, 'rev': rev, 'extra': extra}})
+    # a second reason / an untrack queued behind the attempts in flight, and the full client
+    for rev in (False, True):
+        for full in (False, True):
+            out.append({'lat': 0.001, 'full': full, 'beh': [[0], [0], [0]], 'tail': 31.0,
+                        'glue': {'w': 1, 'rev': rev, 'extra': 2}, 'ops': [
+                            {'op': 't', 'u': 0, 'f': 1, 'gap': ['it', 0]},
+                            {'op': 't', 'u': 1, 'f': 2, 'gap': ['it', 0]},
+                            {'op': 't', 'u': 2, 'f': 4, 'gap': ['it', 1]},
+                            {'op': 't', 'u': 1, 'f': 4, 'gap': ['it', 0]},
+                            {'op': 'u', 'u': 0, 'f': 1, 'gap': ['dt', 3.0]},
+                            {'op': 'u', 'u': 1, 'f': 2, 'gap': ['it', 0]}]})
+    return out
+
+
 def run_shard(ctx):
-    ctx.enumerate(_enumerated_cases() + _enumerated_xfer_cases())
+    ctx.enumerate(_enumerated_cases() + _enumerated_xfer_cases() + _enumerated_glue_cases())
     n = 700 if ctx.tier == 'quick' else 20000
     # the transfer-manager tier first: it is the cheaper one and must not be starved by the wall-clock budget
     ctx.explore(xfer_strategy(), 150 if ctx.tier == 'quick' else 4000, salt=1)
